@@ -344,3 +344,97 @@ class Order:
     def _yatiml_savorize(cls, node: yatiml.Node) -> None:
         node.dashes_to_unders_in_keys()
         node.map_attribute_to_seq('items', 'item_id', 'price')
+
+
+# ------------------------------------------------------- C03 hierarchies
+class HA:
+    def __init__(self, a: int) -> None:
+        T(self, locals())
+        self.a = a
+
+
+class HB(HA, abc.ABC):                  # abstract middle
+    def __init__(self, a: int, b: int) -> None:
+        super().__init__(a)
+        self.b = b
+
+
+class HC(HB):
+    def __init__(self, a: int, b: int, c: int) -> None:
+        super().__init__(a, b)
+        T(self, locals())
+        self.c = c
+
+
+class UA:
+    def __init__(self, a: int) -> None:
+        T(self, locals())
+        self.a = a
+
+
+class UMid(UA):                         # never registered
+    def __init__(self, a: int, m: int = 0) -> None:
+        super().__init__(a)
+        self.m = m
+
+
+class UC(UMid):                         # registered, but its base is not
+    def __init__(self, a: int, c: int) -> None:
+        super().__init__(a)
+        T(self, locals())
+        self.c = c
+
+
+class Ellipse(Shape):
+    def __init__(self, center: List[float], radius: float,
+                 ratio: float = 1.0) -> None:
+        super().__init__(center)
+        T(self, locals())
+        self.radius, self.ratio = radius, ratio
+
+    def area(self) -> float:
+        return self.radius * self.ratio
+
+
+class DA:
+    def __init__(self, a: int) -> None:
+        T(self, locals())
+        self.a = a
+
+
+class DB(DA):
+    def __init__(self, a: int, b: int) -> None:
+        super().__init__(a)
+        self.b = b
+
+
+class DC(DA):
+    def __init__(self, a: int, c: int) -> None:
+        super().__init__(a)
+        self.c = c
+
+
+class DD(DB, DC):                       # diamond
+    def __init__(self, a: int, b: int, c: int) -> None:
+        DA.__init__(self, a)
+        T(self, locals())
+        self.b, self.c = b, c
+
+
+class KBase:
+    def __init__(self, kind: str, v: int) -> None:
+        T(self, locals())
+        self.kind, self.v = kind, v
+
+
+class K1(KBase):
+    @classmethod
+    def _yatiml_recognize(cls, node: yatiml.UnknownNode) -> None:
+        node.require_attribute_value('kind', 'k1')
+
+
+class K2(KBase):
+    @classmethod
+    def _yatiml_recognize(cls, node: yatiml.UnknownNode) -> None:
+        node.require_attribute_value('kind', 'k2')
+        node.require_attribute('v', int)
